@@ -157,6 +157,13 @@ def totalFills (bs : List BatchFills) : Nat := (bs.map (fun b => b.fills.length)
 /-- what the verified batches debit from the account for this order over a sequence of batches -/
 def totalDebit (fs : FeeSchedule) (o : Order) (bs : List BatchFills) : Int := (bs.map (batchDebit fs o)).sum
 
+/-- the two unit checks that end `batchVerifier.Verify`'s per-order loop, for `unitsFilled` = the units all matches of
+    the order in the batch add up to: reject if `unitsFilled > UnitsUnfulfilled`; reject if the market is not the
+    outbound one and `unitsFilled < MinUnitsMatch` -/
+def verifyUnitsOk (o : Order) (unitsFilled : Nat) : Bool :=
+  !(decide (o.unitsUnfulfilled < unitsFilled)) &&
+  !(o.auctionType != btcOutboundLiquidity && decide (unitsFilled < o.minUnitsMatch))
+
 /-- single match, one channel, one batch -/
 def singleDebit (fs : FeeSchedule) (o : Order) (ver feeRate : Nat) (f : Fill) : Int :=
   matchDebit fs o f + (estimateTraderFee 1 feeRate ver : Int)
